@@ -94,9 +94,33 @@ func TestC17_RollingCounter(t *testing.T) {
 		var log []string
 		slots := map[int64]bool{}
 		readsDiffer, bigGap := false, false
+		appends := 0
 		lastInc := time.Duration(-1)
 		for i := 0; i < nops; i++ {
-			switch rapid.IntRange(0, 8).Draw(t, "op") {
+			switch rapid.IntRange(0, 9).Draw(t, "op") {
+			case 9: // another counter, filled at this very instant, is appended: its events are increments made now
+				n2, r2 := n, r
+				if rapid.IntRange(0, 2).Draw(t, "otherGeometry") == 0 {
+					n2, r2 = n+rapid.IntRange(1, 3).Draw(t, "moreBuckets"), r*time.Duration(rapid.IntRange(1, 2).Draw(t, "coarser"))
+				}
+				o, err := memmetrics.NewCounter(n2, r2)
+				if err != nil {
+					t.Fatalf("NewCounter(%d,%v): %v", n2, r2, err)
+				}
+				sum := 0
+				for k := rapid.IntRange(1, 3).Draw(t, "appendedIncs"); k > 0; k-- {
+					v := rapid.IntRange(1, 4).Draw(t, "av")
+					o.Inc(v)
+					sum += v
+				}
+				if err := c.Append(o); err != nil {
+					t.Fatalf("Append: %v", err)
+				}
+				evs = append(evs, ev{now, sum})
+				slots[int64((now+phase)/r)] = true
+				appends++
+				lastInc = now
+				log = append(log, fmt.Sprintf("append(%d from a %dx%v counter)", sum, n2, r2))
 			case 0, 1:
 				v := rapid.IntRange(1, 5).Draw(t, "v")
 				c.Inc(v)
@@ -159,6 +183,9 @@ func TestC17_RollingCounter(t *testing.T) {
 		}
 		if readsDiffer {
 			cl = append(cl, "lower!=upper-at-a-read")
+		}
+		if appends > 0 {
+			cl = append(cl, "append-of-another-counter")
 		}
 		sig := fmt.Sprintf("rc|%d|%v|%v|%s", n, r, phase, strings.Join(log, " "))
 		vstat.Case(sig, nt, cl, map[string]any{"buckets": n, "resolution": r.String(), "phase": phase.String(), "history": strings.Join(log, " ")})
